@@ -47,9 +47,42 @@ BinW(f, wl, wr) == /\ res = NoRes /\ RelOperand(lhs) /\ RelOperand(rhs)
 NotBinW(f, wl, wr) == /\ res = NoRes /\ RelOperand(lhs) /\ RelOperand(rhs)
                       /\ res' = [c \in Cfgs |-> {NotOut(o) : o \in BinWRes(f, wl, wr, lhs, rhs)[c]}]
                       /\ lhs' = <<>> /\ rhs' = <<>>
+(* OPERANDS PRODUCED BY SEQUENCE CONSTRUCTS.  The EBV is a function of the sequence VALUE, whatever
+   expression produced it.  Via(w, S) is the value of a construct applied to S -- fn:reverse twice,
+   fn:subsequence from 1, a `for` over S, the filter [true()], S comma (), the members of an array, a
+   map entry -- (each is the identity on sequences: invariant InvVia); RangeSeq(a, b) is the range
+   expression `a to b`.  FnVia / FnRange apply boolean / not / if to such an operand, BinVia /
+   BinRange combine it with a boolean operand on the other side ("L": construct on the left). *)
+RECURSIVE Rev(_)
+Rev(S) == IF S = <<>> THEN <<>> ELSE Append(Rev(Tail(S)), Head(S))
+Vias == {"revrev", "subseq", "for", "filter", "comma", "arr", "map"}
+Via(w, S) == CASE w = "revrev" -> Rev(Rev(S))
+               [] w = "subseq" -> SubSeq(S, 1, Len(S))
+               [] w = "for" -> [i \in 1..Len(S) |-> S[i]]
+               [] w = "filter" -> SelectSeq(S, LAMBDA x : TRUE)
+               [] w = "comma" -> S \o <<>>
+               [] OTHER -> S
+Ranges == {<<1, 0>>, <<0, 0>>, <<1, 1>>, <<1, 2>>}
+RangeSeq(a, b) == [i \in 1..(b - a + 1) |-> Num("int", (a + i - 1) * Unit)]
+BoolOperand(S) == S \in {<<Bool(TRUE)>>, <<Bool(FALSE)>>}
+Done == lhs' = <<>> /\ rhs' = <<>>
+FnVia(f, w) == res = NoRes /\ rhs = <<>> /\ res' = LRes(f, Via(w, lhs), rhs) /\ Done
+FnRange(f, a, b) == res = NoRes /\ rhs = <<>> /\ lhs = RangeSeq(a, b) /\ res' = LRes(f, RangeSeq(a, b), rhs) /\ Done
+BinVia(f, w, side) ==
+  /\ res = NoRes /\ Done
+  /\ \/ side = "L" /\ BoolOperand(rhs) /\ res' = LRes(f, Via(w, lhs), rhs)
+     \/ side = "R" /\ BoolOperand(lhs) /\ res' = LRes(f, lhs, Via(w, rhs))
+BinRange(f, a, b, side) ==
+  /\ res = NoRes /\ Done
+  /\ \/ side = "L" /\ BoolOperand(rhs) /\ lhs = RangeSeq(a, b) /\ res' = LRes(f, RangeSeq(a, b), rhs)
+     \/ side = "R" /\ BoolOperand(lhs) /\ rhs = RangeSeq(a, b) /\ res' = LRes(f, lhs, RangeSeq(a, b))
 LNext == \/ \E v \in Items : AppendL(v) \/ AppendR(v)
          \/ \E f \in {"boolean", "not", "if"} : Fn(f)
          \/ \E f \in {"and", "or"} : Bin(f)
+         \/ \E f \in {"boolean", "not", "if"}, w \in Vias : FnVia(f, w)
+         \/ \E f \in {"boolean", "not", "if"}, r \in Ranges : FnRange(f, r[1], r[2])
+         \/ \E f \in {"and", "or"}, w \in Vias, side \in {"L", "R"} : BinVia(f, w, side)
+         \/ \E f \in {"and", "or"}, r \in Ranges, side \in {"L", "R"} : BinRange(f, r[1], r[2], side)
          \/ \E f \in {"and", "or"}, wl \in Wraps, wr \in Wraps : BinW(f, wl, wr) \/ NotBinW(f, wl, wr)
 LSpec == Init /\ [][LNext]_vars
 
@@ -97,5 +130,9 @@ InvRel ==                \* commutativity and De Morgan on focus-reading operand
         /\ Cardinality(r) = 1 /\ r \subseteq {"TRUE", "FALSE"}                          \* no error, no choice
         /\ WrapOut("empty", lhs) = NotOut(WrapOut("exists", lhs))
         /\ WrapOut("exists", lhs) = WrapOut("boolean", lhs)                            \* on node sequences
-LogicLaws == InvEBV /\ InvLogic /\ InvRel
+InvVia == Building => /\ \A w \in Vias : Via(w, lhs) = lhs /\ EBVOf(Via(w, lhs)) = EBVOf(lhs)
+                      /\ \A r \in Ranges : /\ Len(RangeSeq(r[1], r[2])) = (IF r[2] < r[1] THEN 0 ELSE r[2] - r[1] + 1)
+                                            /\ EBVOf(RangeSeq(r[1], r[2])) = (IF r[2] < r[1] THEN "FALSE"
+                                                  ELSE IF r[2] > r[1] THEN "FORG0006" ELSE B2O(r[1] # 0))
+LogicLaws == InvEBV /\ InvLogic /\ InvRel /\ InvVia
 =============================================================================
